@@ -162,11 +162,79 @@ struct Tracked {
     friend bool operator>=(Tracked const& a, Tracked const& b) { return a.v >= b.v; }
 };
 
+// Same instrumentation with restricted special members:
+//   Mode 1 = move-only (copy operations deleted), Mode 2 = copy-only (no move operations declared:
+//   rvalues bind to the copy operations).
+template <int Mode>
+struct TrackedT {
+    int v;
+    TrackedT() : v(0)
+    {
+        ++live_count();
+        life().ev("ctor", this, nullptr, v);
+    }
+    TrackedT(int x) : v(x) // NOLINT implicit on purpose
+    {
+        ++live_count();
+        life().ev("ctor", this, nullptr, v);
+    }
+    TrackedT(TrackedT const& o)
+        requires(Mode != 1)
+        : v(o.v)
+    {
+        ++live_count();
+        life().ev("cctor", this, &o, v);
+    }
+    TrackedT(TrackedT&& o) noexcept
+        requires(Mode == 1)
+        : v(o.v)
+    {
+        ++live_count();
+        o.v = -1;
+        life().ev("mctor", this, &o, v);
+    }
+    auto operator=(TrackedT const& o) -> TrackedT&
+        requires(Mode != 1)
+    {
+        v = o.v;
+        life().ev("cassign", this, &o, v);
+        return *this;
+    }
+    auto operator=(TrackedT&& o) noexcept -> TrackedT&
+        requires(Mode == 1)
+    {
+        int x = o.v;
+        if (this != &o) { o.v = -1; }
+        v = x;
+        life().ev("massign", this, &o, v);
+        return *this;
+    }
+    ~TrackedT()
+    {
+        --live_count();
+        life().ev("dtor", this, nullptr, v);
+        v = -7777;
+    }
+    friend bool operator==(TrackedT const& a, TrackedT const& b) { return a.v == b.v; }
+    friend bool operator!=(TrackedT const& a, TrackedT const& b) { return a.v != b.v; }
+    friend bool operator<(TrackedT const& a, TrackedT const& b) { return a.v < b.v; }
+    friend bool operator<=(TrackedT const& a, TrackedT const& b) { return a.v <= b.v; }
+    friend bool operator>(TrackedT const& a, TrackedT const& b) { return a.v > b.v; }
+    friend bool operator>=(TrackedT const& a, TrackedT const& b) { return a.v >= b.v; }
+};
+using TrackedMO = TrackedT<1>;
+using TrackedCO = TrackedT<2>;
+
 inline int val_of(int x) { return x; }
 inline int val_of(Tracked const& t) { return t.v; }
+template <int M>
+inline int val_of(TrackedT<M> const& t)
+{
+    return t.v;
+}
 
 template <typename T>
-inline constexpr bool is_tracked = std::is_same_v<T, Tracked>;
+inline constexpr bool is_tracked = std::is_same_v<T, Tracked> || std::is_same_v<T, TrackedMO> || std::is_same_v<T, TrackedCO>;
 
 inline void emit(json const& j) { std::cout << j.dump() << std::endl; }
 
